@@ -14,6 +14,10 @@ CHECKS['C16'] = dict(level='model_checking', engine='sched',
    technique='stateless schedule exploration (DFS over scheduling decisions, preemption- and deviation-bounded) of the real ocache under a controlled scheduler (testing/synctest + sync shim)',
    text='Every schedule (preemption bound 2/3, environment-deviation bound 1/2) of 2-4 concurrent Get/Pick/Add/Remove/RemoveSame/TryRemove/GC/Close/DoLockedIfNotExists calls on 1-2 ids, from an empty and a preloaded cache, is executed on the real cache with every mutex acquisition and every load/close/try-close step as a scheduling point; the event log of each complete execution is checked against the single-live-instance, loaded-before-returned, no-double-close, nothing-left-open-after-shutdown, no-removed-instance-returned, no-panic and no-deadlock oracles.',
    note='interleaving granularity = lock acquisitions + harness blocking points (unsynchronised accesses are race-detector territory); RWMutex writer preference not modelled; timeouts never fire; map iteration order over two ids is not enumerated', ref='5 C16')
+CHECKS['C19'] = dict(level='model_checking', engine='sched',
+   technique='stateless schedule exploration (DFS, preemption- and deviation-bounded) of the real stream pool with fake healthy/slow/blocked/failing streams under a controlled scheduler (testing/synctest + sync/atomic shims)',
+   text='Every schedule (preemption bound 3/4, deviation bound 1/2) of 2-4 concurrent Broadcast/SendById/Send/tag/peer-close/AddStream operations over real pools holding healthy, slow, blocked-forever and failing fake streams with queue sizes 1..3 is executed; the blocked stream is never released, so a caller that waits on it is reported as a deadlock; per-stream delivery order, queue occupancy (reference computed from the observed acceptance attempts), delivery to healthy streams, index cleanup after stream end and the pool logger Fatal are checked on every execution.',
+   note='interleaving granularity = pool mutex acquisitions, stream.closed atomic operations, MsgSend/dial events; the third-party mb queue is not instrumented; one stream per peer where acceptance order is judged', ref='5 C19')
 NOT_YET = 'check not built yet (work in progress, see DESIGN.md section 10)'
 m = {
  'version': 1,
